@@ -126,7 +126,7 @@ def is_definite(q, need_axes=None):
                 ks.append(a)
             elif a[0] == "abs" and all(b[0] == "k" for b in a[1].atoms()):
                 ks.extend(a[1].atoms())
-            elif a[0] == "P":
+            elif a[0] in ("P", "R"):
                 if not is_definite(a[1]):
                     return False
                 ks.extend(b for b in a[1].all_atoms() if b[0] == "k")
@@ -136,7 +136,7 @@ def is_definite(q, need_axes=None):
             pure.add((ks[0][1], ks[0][2]))
         elif not ks:
             return True  # positive constant term
-        elif m and len(m) == 1 and m[0][0][0] == "P":
+        elif m and len(m) == 1 and m[0][0][0] in ("P", "R"):
             # a single P(...) factor that is itself definite covers all its axes
             inner = m[0][0][1]
             for a in k_axes(inner):
@@ -171,7 +171,7 @@ def _spec_generic(p):
                     ((m, c),) = q.t.items()
                     q1 = Poly({m: ONE})
                     # a monomial vanishes iff one factor does; q1^2 definite  <=>  never zero for k != 0
-                    if all(b[0] in ("k", "P", "abs") or alg._atom_pos(b) for b, _ in m) and is_definite(q1 * q1):
+                    if all(b[0] in ("k", "P", "R", "abs") or alg._atom_pos(b) for b, _ in m) and is_definite(q1 * q1):
                         return Poly()
                 else:
                     c0, g, qq = alg.primitive(q)
@@ -212,14 +212,14 @@ def _k_to_zero(p):
         if dead:
             continue
         for a, e in m:
-            if a[0] == "P":
+            if a[0] in ("P", "R"):
                 inner = _k_to_zero(a[1])
                 if inner.is_zero():
                     if e > 0:
                         dead = True
                         break
                     raise AlgError(f"singular at DC: {alg.fmt_atom(a)}^{e}")
-                term = term * (inner**e)
+                term = term * (inner**e if a[0] == "P" else inner ** Fr(e, a[2]))
             elif a[0] == "abs":
                 inner = _k_to_zero(a[1])
                 if inner.is_zero():
@@ -288,7 +288,7 @@ def _spec_axes(p, world):
 
 # ----------------------------------------------------------------------------- FFT pair
 
-MULT_TAGS = {"k", "ind", "P", "abs", "exp", "expi", "pow"}
+MULT_TAGS = {"k", "ind", "P", "R", "abs", "exp", "expi", "pow"}
 
 
 def is_multiplier_atom(a):
